@@ -100,14 +100,21 @@ func main() {
 		os.Exit(2)
 	}
 	if *redirects != "" {
-		b, err := os.ReadFile(*redirects)
-		if err != nil {
-			fmt.Fprintln(os.Stderr, err)
-			os.Exit(2)
-		}
-		if err := json.Unmarshal(b, &eng.Redirects); err != nil {
-			fmt.Fprintln(os.Stderr, err)
-			os.Exit(2)
+		// several files may be given, separated by commas; later files win
+		for _, f := range strings.Split(*redirects, ",") {
+			b, err := os.ReadFile(f)
+			if err != nil {
+				fmt.Fprintln(os.Stderr, err)
+				os.Exit(2)
+			}
+			m := map[string]string{}
+			if err := json.Unmarshal(b, &m); err != nil {
+				fmt.Fprintln(os.Stderr, err)
+				os.Exit(2)
+			}
+			for k, v := range m {
+				eng.Redirects[k] = v
+			}
 		}
 	}
 	if *maxSteps > 0 {
